@@ -21,13 +21,23 @@ import (
 // arenaSpec describes where dst sits and how the world around it looks. The
 // worker is chrooted, so "/" is a private, fully observable world.
 type arenaSpec struct {
-	Parent string   `json:"parent"`          // directory that contains dst
-	Base   string   `json:"base"`            // name of dst
-	Prepop bool     `json:"prepop"`          // dst already contains plain files / directories
-	Allow  []string `json:"allow,omitempty"` // AllowSymlinkTarget options
+	Parent string   `json:"parent"`                 // directory that contains dst
+	Base   string   `json:"base"`                   // name of dst
+	Prepop bool     `json:"prepop"`                 // dst already contains plain files / directories
+	Allow  []string `json:"allow,omitempty"`        // AllowSymlinkTarget options
+	Spell  int      `json:"dst_spelling,omitempty"` // how dst is spelled in the Unpack call (0 = clean)
 }
 
 func (a arenaSpec) Dst() string { return filepath.Join(a.Parent, a.Base) }
+
+// dstSpellings are ways of writing the same destination directory.
+var dstSpellings = []string{"{P}/{B}", "{P}/{B}/", "{P}/{B}/.", "{P}//{B}", "{P}/./{B}", "{P}/sib/../{B}", "{P}/{B}//"}
+
+// DstArg is the destination as handed to Unpack.
+func (a arenaSpec) DstArg() string {
+	t := dstSpellings[a.Spell%len(dstSpellings)]
+	return strings.ReplaceAll(strings.ReplaceAll(t, "{P}", a.Parent), "{B}", a.Base)
+}
 
 var arenaVariants = []arenaSpec{
 	{Parent: "/arena", Base: "dst"},
@@ -95,23 +105,28 @@ type unpackObs struct {
 // runUnpack executes Unpack on data into the arena's dst under full
 // observation.
 func runUnpack(a arenaSpec, data []byte, wrap func(*bytes.Reader) readerLike) unpackObs {
-	dst := a.Dst()
-	var obs unpackObs
-	before := mon.Take("/", dst)
 	var opts []slug.PackerOption
 	for _, al := range a.Allow {
 		opts = append(opts, slug.AllowSymlinkTarget(al))
 	}
 	p, err := slug.NewPacker(opts...)
 	if err != nil {
-		obs.Err = err
-		return obs
+		return unpackObs{Err: err}
 	}
+	return runUnpackWith(p, a, data, wrap)
+}
+
+// runUnpackWith is runUnpack with a Packer supplied by the caller (which may
+// have been used before).
+func runUnpackWith(p *slug.Packer, a arenaSpec, data []byte, wrap func(*bytes.Reader) readerLike) unpackObs {
+	dst := a.Dst()
+	var obs unpackObs
+	before := mon.Take("/", dst)
 	var r readerLike = bytes.NewReader(data)
 	if wrap != nil {
 		r = wrap(bytes.NewReader(data))
 	}
-	panicked, pv := fw.Try(func() { obs.Err = p.Unpack(r, dst) })
+	panicked, pv := fw.Try(func() { obs.Err = p.Unpack(r, a.DstArg()) })
 	if panicked {
 		obs.Panic = pv
 	}
@@ -119,6 +134,10 @@ func runUnpack(a arenaSpec, data []byte, wrap func(*bytes.Reader) readerLike) un
 	obs.Illegal = obs.Err != nil && errors.As(obs.Err, &ise)
 	after := mon.Take("/", dst)
 	obs.OutsideDiff = mon.Diff(before, after)
+	if fi, err := os.Lstat(dst); err != nil || !fi.IsDir() {
+		// dst's own directory entry lives in its parent, i.e. outside dst
+		obs.OutsideDiff = append(obs.OutsideDiff, fmt.Sprintf("removed: the destination directory %s itself is gone (or no longer a directory) after the call", dst))
+	}
 	// C04: every link under dst must resolve inside (the real path of) dst
 	realDst, _ := mon.Resolve(dst)
 	filepath.Walk(dst, func(p string, info os.FileInfo, err error) error {
